@@ -1,7 +1,7 @@
 // C13-O3 / C15-O3: SoPlexBase<double>::_parseSettingsLine and ::parseSettingsString on arbitrary text.
-// The text is an arbitrary NUL-terminated string held in an EXACTLY sized heap object (its NUL is the last byte of the
-// object): any access behind the terminator is outside the object (CBMC's built-in checks on the real code; ASan in the
-// native replay).
+// The text is an arbitrary NUL-terminated string inside a small heap object (layout: see draw_text); any access outside the
+// object is caught by CBMC's built-in checks on the real code (ASan in the native replay), any dependence on bytes behind
+// the string's terminator by the assertions.
 // Contract style: `this` is raw zero memory (spxout.m_verbosity == ERROR, so no message is printed); the three typed setters
 // and setRandomSeed are REPLACED by recording models which log (kind, index, value) and return a scripted symbolic bool.
 // The static parameter NAME TABLES: running the real Settings constructors (162 std::string assignments) symbolically costs
@@ -137,31 +137,49 @@ extern "C" int m_strncasecmp(const char* a, const char* b, size_t n)
    bool eq = n == 4 ? (single ? g_pre.is_t : g_pre.is_true4) : (single ? g_pre.is_f : g_pre.is_false5);
    return eq ? 0 : 1;
 }
-// spxSnprintf(t, len, "%s", src): the only use in the code under test
-// The target is an uninitialised stack buffer: what lies behind the copied string is modelled as GN arbitrary bytes (drawn by
-// the harness) followed by zeros; the native build puts the same bytes there by soiling the stack before the call.
-#define GN 8
-#define GZ 4
-static const char* g_src; static unsigned char g_garbage[GN]; static int g_value_off;
+// strncmp(text, word, n) with a CONCRETE second argument (type words, table names, "random_seed"): exact, but written so that
+// the loop ends on the concrete word (CBMC's own strncmp model is unrolled to the global bound for every one of the 81
+// table names). Every string the parsers pass as first argument is NUL-terminated and has at most MAXTOK characters (it lies in the
+// text or in the pad), so a longer word can never be equal to it.
+#define MAXTOK LEN
+extern "C" int m_strncmp(const char* a, const char* w, size_t n)
+{
+   size_t wl = 0;
+   while(w[wl] != '\0') ++wl;                        // concrete
+   if(wl < n && wl > MAXTOK) return 1;
+   for(size_t i = 0; i < n; ++i)
+   {
+      char cw = w[i];
+      if(a[i] != cw) return (unsigned char)a[i] < (unsigned char)cw ? -1 : 1;
+      if(cw == '\0') return 0;
+   }
+   return 0;
+}
+// spxSnprintf(t, len, "%s", src): the only use in the code under test. The target is an uninitialised stack buffer; what lies
+// behind the copied string is modelled as the bytes that follow the string in the harness' text object (arbitrary bytes, then
+// NULs): the native build puts the same bytes there by soiling the stack before the call.
+static const char* g_src; static int g_src_size; static int g_value_off;
 extern "C" int m_spxsnprintf(char* t, size_t len, const char* fmt, ...)
 {
    g_value_ptr = t + g_value_off;                    // the value token inside the internal copy
-   size_t i = 0;
-   for(; i + 1 < len && g_src[i] != '\0'; ++i) t[i] = g_src[i];
-   t[i] = '\0';
-   for(int k = 0; k < GN + GZ; ++k) t[i + 1 + k] = (k < GN) ? (char)g_garbage[k] : '\0';
-   return (int)i;
+   int n = -1;
+   for(int i = 0; i < g_src_size; ++i)
+   {
+      t[i] = g_src[i];
+      if(n < 0 && g_src[i] == '\0') n = i;
+   }
+   return n;
 }
 #ifdef VP_NATIVE
-// fills the stack area the callee's frame will occupy with the periodic pattern  garbage[0..GN) 0 0 0 0, aligned to
-// absolute addresses + phase (the position of the callee's buffer is not known: the caller tries every phase)
-__attribute__((noinline)) static void soil(int phase)
+// fills the stack area the callee's frame will occupy with the periodic pattern  rest[0..restlen), aligned to absolute
+// addresses + phase (the position of the callee's buffer is not known: the caller tries every phase)
+__attribute__((noinline)) static void soil(const char* rest, int restlen, int phase)
 {
    volatile unsigned char big[6000];
    for(int i = 0; i < 6000; ++i)
    {
-      unsigned long a = ((unsigned long)&big[i] + (unsigned long)phase) % (GN + GZ);
-      big[i] = a < GN ? g_garbage[a] : 0;
+      unsigned long a = ((unsigned long)&big[i] + (unsigned long)phase) % (unsigned long)restlen;
+      big[i] = (unsigned char)rest[a];
    }
 }
 #endif
@@ -201,7 +219,7 @@ static void tok_copy(const char* s, Tok& t)
 // token == w (w of length n, concrete)
 static bool tok_eq(const Tok& t, const char* w, int n, bool nocase = false)
 {
-   if(n > LEN || t.n != n) return false;
+   if(n > LEN - 5 || t.n != n) return false;          // type(>=3) ':' name '=' value(>=1): a name has at most LEN-5 characters
    for(int i = 0; i < n; ++i) if((nocase ? c_lower(t.c[i]) : (int)t.c[i]) != w[i]) return false;
    return true;
 }
@@ -344,17 +362,33 @@ static bool same_settings(SoPlex* a, SoPlex* b)
 }
 #endif
 
-// arbitrary text: object of exactly LEN+1 bytes, LEN arbitrary non-NUL bytes + NUL; the string handed over starts at an
-// arbitrary position p, i.e. it is an arbitrary string of length 0..LEN whose terminator is the last byte of its object
+// The text object: SIZE = LEN + PADZ bytes on the heap; the first LEN bytes are ARBITRARY (0..255, NULs included), the last
+// PADZ bytes are NUL. The string handed to the parser is the object's prefix up to its first NUL: every string of length
+// <= LEN occurs, and a string of length n is followed inside the object by LEN-n arbitrary bytes and PADZ NULs. A parser that
+// steps over the terminator therefore stays inside the object and every scan loop stays bounded, so the defect shows as an
+// outcome that depends on bytes behind the terminator (an assertion that replays natively) instead of an out-of-bounds
+// read inside a loop that the solver cannot bound.
+// Variant VP_EXACT: the first LEN bytes are non-NUL, one NUL follows as the LAST byte of the object, and the string starts at an
+// arbitrary position p: every string of length <= LEN in an exactly sized object.
+#ifdef VP_EXACT
+#define PADZ 1
+#else
+#define PADZ 3
+#endif
+#define SIZE (LEN + PADZ)
 static char* draw_text()
 {
-   char* b = (char*)malloc((size_t)LEN + 1);
+   char* b = (char*)malloc((size_t)SIZE);
    for(int i = 0; i < LEN; ++i)
    {
+#ifdef VP_EXACT
       int c = vp_int_in(1, 255);
+#else
+      int c = vp_int_in(0, 255);
+#endif
       b[i] = (char)c;
    }
-   b[LEN] = '\0';
+   for(int i = LEN; i < SIZE; ++i) b[i] = '\0';
    return b;
 }
 
@@ -362,27 +396,27 @@ template <int WHICH> static void parse_obligation()
 {
    init_tables();
    char* b = draw_text();
+#ifdef VP_EXACT
    int p = vp_int_in(0, LEN);
+#else
+   const int p = 0;
+#endif
    g_ret = vp_nondet_bool();
    g_strtod_val = vp_small(-8, 8);
    g_wild_int = vp_nondet_int();
    g_wild_flag = vp_nondet_bool();
-   if(WHICH == 1)
-      for(int k = 0; k < GN; ++k)
-      {
-         int c = vp_int_in(0, 255);
-         g_garbage[k] = (unsigned char)c;
-      }
-   char ref[LEN + 1];
-   for(int i = 0; i <= LEN; ++i) ref[i] = b[i];      // the real functions overwrite separators in place
+   char ref[SIZE];
+   for(int i = 0; i < SIZE; ++i) ref[i] = b[i];      // the real functions overwrite separators in place
    Expect x = reference(ref + p);
 #ifdef VP_NATIVE
-   for(int phase = 0; phase < (WHICH == 1 ? GN + GZ : 1); ++phase)
+   int n = (int)strlen(ref + p);
+   const char* rest = ref + p + n + 1; int restlen = SIZE - p - n - 1;          // what follows the string (ends with NULs)
+   for(int phase = 0; phase < ((WHICH == 1 && restlen > 0) ? restlen : 1); ++phase)
    {
-   for(int i = 0; i <= LEN; ++i) b[i] = ref[i];
+   for(int i = 0; i < SIZE; ++i) b[i] = ref[i];
 #endif
    SoPlex* sp = make_solver();
-   g_calls = 0; g_src = b + p; g_ptr_ok = true;
+   g_calls = 0; g_src = b + p; g_src_size = SIZE - p; g_ptr_ok = true;
    g_value_off = x.vb; g_value_ptr = b + p + x.vb;   // parseSettingsString: reset by the copy model to the internal buffer
    bool ret = false, threw = false;
    try
@@ -391,7 +425,7 @@ template <int WHICH> static void parse_obligation()
       else
       {
 #ifdef VP_NATIVE
-         soil(phase);
+         if(restlen > 0) soil(rest, restlen, phase);
 #endif
          ret = sp->parseSettingsString(b + p);
       }
@@ -426,7 +460,7 @@ template <int WHICH> static void parse_obligation()
       bool r = true;
       if(x.kind == K_BOOL) r = q->setBoolParam((SoPlex::BoolParam)x.idx, x.ival != 0);
       if(x.kind == K_INT) r = q->setIntParam((SoPlex::IntParam)x.idx, (int)x.ival, false);
-      if(x.kind == K_REAL) { char v[LEN + 1]; int n = x.ve - x.vb; memcpy(v, ref + p + x.vb, n); v[n] = '\0'; r = q->setRealParam((SoPlex::RealParam)x.idx, strtod(v, nullptr)); }
+      if(x.kind == K_REAL) { char v[LEN + 1]; int m = x.ve - x.vb; memcpy(v, ref + p + x.vb, m); v[m] = '\0'; r = q->setRealParam((SoPlex::RealParam)x.idx, strtod(v, nullptr)); }
       if(x.kind == K_SEED) q->setRandomSeed((unsigned int)x.ival);
       vp_assert(same_settings(sp, q), 7);
       vp_assert(ret == r, 10);
